@@ -153,6 +153,12 @@ static void global_rewrites(const Node& root, const std::function<void(const std
     { Node w = root; visit(w, [](Node& n) { if (n.major != 7 && !n.indef) n.ai = 27; }); f("all-heads-widest", encode(w)); }
     { Node w = root; chunk_all(w); f("all-strings-chunked", encode(w)); }
     { Node w = root; visit(w, [](Node& n) { if (n.major == 5) { std::vector<Node> k; for (size_t i = n.kids.size(); i >= 2; i -= 2) { k.push_back(n.kids[i - 2]); k.push_back(n.kids[i - 1]); } n.kids = k; } }); f("all-maps-reversed", encode(w)); }
+    // every map kind x every unknown key that is congruent to a known key modulo 2^8 / 2^16 / 2^32 / 2^64 (truncating casts), as uint and as text value
+    { static const struct { int major; uint64_t arg; const char* name; } KEYS[] = {{0, 256, "256"}, {0, 257, "257"}, {0, 258, "258"}, {0, 259, "259"}, {0, 260, "260"}, {0, 65536, "65536"}, {0, 65537, "65537"}, {0, 65539, "65539"}, {0, 0x100000000ULL, "2^32"}, {0, 0x100000001ULL, "2^32+1"}, {0, 0x100000003ULL, "2^32+3"},
+          {1, 255, "-256"}, {1, 254, "-255"}, {1, 253, "-254"}, {1, 256, "-257"}, {1, 65535, "-65536"}, {1, 0xffffffffULL, "-2^32"}, {0, 0x7fffffffffffffffULL, "2^63-1"}, {1, 0x7fffffffffffffffULL, "-2^63"},
+          {0, 0xffffffffffffffffULL, "2^64-1"}, {0, 0xfffffffffffffffeULL, "2^64-2"}, {0, 0xfffffffffffffffdULL, "2^64-3"}, {0, 0x8000000000000000ULL, "2^63"}, {1, 0xffffffffffffffffULL, "-2^64"}, {1, 0x8000000000000000ULL, "-2^63-1"}};
+      for (auto& K : KEYS) for (int vt = 0; vt < 2; vt++) { Node w = root; std::vector<Node*> maps; visit(w, [&](Node& n) { if (n.major == 5) maps.push_back(&n); }); Node key = K.major == 0 ? mk_uint(K.arg) : mk_nint(K.arg);
+          for (auto it = maps.rbegin(); it != maps.rend(); ++it) (*it)->kids.insert((*it)->kids.end(), {key, vt ? mk_tstr("text") : mk_uint(7)}); f(std::string("unknown-key-class-") + K.name + (vt ? "-text" : "-uint"), encode(w)); } }
     for (size_t v = 0; v < values.size(); v++) { Node w = root; std::vector<Node*> maps; visit(w, [&](Node& n) { if (n.major == 5) maps.push_back(&n); });
         for (auto it = maps.rbegin(); it != maps.rend(); ++it) (*it)->kids.insert((*it)->kids.begin(), {mk_int(v & 1 ? -77 : 77), values[v]}); f("unknown-in-every-map-val" + std::to_string(v), encode(w)); }
     { Node w = root; visit(w, [](Node& n) { if (n.major == 4 || n.major == 5) n.indef = true; if (n.major <= 1) n.ai = 27; }); chunk_all(w); f("everything-at-once", encode(w)); }
